@@ -8,3 +8,105 @@ Proof. vm_compute. reflexivity. Qed.
 Example c14_asfound_refuted :
   existsb (fun n => (n =? 1099511627776)%N) (o_allocs (serve asfound (s "D") [] (mkA [] (FRespond 200 (s "ok") true)) c14_witness true)) = true.
 Proof. vm_compute. reflexivity. Qed.
+
+(* ---------------------------------------------------------------------------------------------
+   C14 — theorems (proofs in Http/AllocFacts.v, Http/C14ArithFacts.v, Http/ServeStreamFacts.v)
+   --------------------------------------------------------------------------------------------- *)
+From TH Require Import Http.ServeFacts Http.AllocFacts Http.C14ArithFacts Http.ServeStreamFacts.
+From Coq Require Import Lia.
+
+(* (a) every allocation made on behalf of a client-declared length is at most 8 KiB,
+       for every input, half-close flag, date, handler script and default action *)
+Theorem c14_alloc_bounded : forall date script dflt input eof,
+  Forall (fun n => (n <= 8192)%N) (o_allocs (serve fixed date script dflt input eof)).
+Proof. exact serve_allocs_bounded. Qed.
+Print Assumptions c14_alloc_bounded.
+
+(* the pre-read small body is at most 1024 bytes *)
+Theorem c14_buffered_small : forall c hs n bl e,
+  framing c hs = FrOk (KBuffered n) bl e -> (n <= 1024)%N.
+Proof. exact framing_buffered_le. Qed.
+Print Assumptions c14_buffered_small.
+
+(* (b) the arithmetic panic sites: no subtraction underflows, no slice is out of range *)
+Theorem c14_no_underflow_src : forall n st d st', src_read n st = (RData d, st') ->
+  (List.length d <= n)%nat /\ d <> [] /\ sbytes st = d ++ sbytes st' /\ seof st' = seof st.
+Proof. exact src_read_piece. Qed.
+Print Assumptions c14_no_underflow_src.
+
+Theorem c14_no_underflow_limited : forall c n rem st al d r' st' al',
+  body_read c n (BLimited rem) st al = (RData d, r', st', al') ->
+  (len d <= rem)%N /\ (len d <= N.of_nat n)%N /\ r' = BLimited (rem - len d)%N.
+Proof. exact limited_read_piece. Qed.
+Print Assumptions c14_no_underflow_limited.
+
+(* discard_S: the loop of EqualReader::drop reads with `discard_want` into a buffer of `discard_buf` *)
+Theorem c14_no_underflow_discard : forall c remaining st d st1, remaining <> 0%N ->
+  src_read (discard_want c remaining st) st = (RData d, st1) ->
+  (len d <= remaining)%N /\ (len d <= discard_buf c remaining)%N.
+Proof. exact discard_piece. Qed.
+Print Assumptions c14_no_underflow_discard.
+Theorem c14_discard_unfold : forall c f remaining st al,
+  discard c (S f) remaining st al =
+  if (remaining =? 0)%N then (st, al) else
+  match src_read (discard_want c remaining st) st with
+  | (RData d, st1) => discard c f (remaining - len d)%N st1 (discard_buf c remaining :: al)
+  | (_, st1) => (st1, discard_buf c remaining :: al)
+  end.
+Proof. exact discard_S. Qed.
+Print Assumptions c14_discard_unfold.
+
+Theorem c14_no_underflow_chunked : forall n r st d rem' st',
+  dec_read n (Some r) st = (RData d, rem', st') ->
+  (len d <= r)%N /\ (List.length d <= n)%nat /\ (rem' = Some (r - len d)%N \/ rem' = None /\ len d = r).
+Proof. exact dec_read_piece. Qed.
+Print Assumptions c14_no_underflow_chunked.
+
+Theorem c14_no_underflow_buffer : forall c n r st al d r' st' al',
+  body_read c n r st al = (RData d, r', st', al') -> (List.length d <= n)%nat.
+Proof. exact body_read_fits. Qed.
+Print Assumptions c14_no_underflow_buffer.
+
+Theorem c14_no_underflow_buffer_any : forall c n r st al d r' st' al',
+  body_read_any c n r st al = (RData d, r', st', al') -> (List.length d <= n)%nat.
+Proof. exact body_read_any_fits. Qed.
+Print Assumptions c14_no_underflow_buffer_any.
+
+Theorem c14_no_underflow_take : forall c m n r st al d r' st' al',
+  body_read_any c (N.to_nat (N.min m (N.of_nat n))) r st al = (RData d, r', st', al') -> (len d <= m)%N.
+Proof. exact take_piece. Qed.
+Print Assumptions c14_no_underflow_take.
+
+(* (c) fuel honesty: an iteration of serve_loop that continues strictly shortens the pending
+       bytes (serve_loop_S: serve_loop (S f) = run_step (serve_loop f) (serve_step ...)), so the
+       fuel `S (length input)` of `serve` is never exhausted: more fuel changes nothing *)
+Theorem c14_iteration_progress : forall c date script dflt st wire reqs al ok script' st' wire' reqs' al' ok',
+  serve_step c date script dflt st wire reqs al ok = SCont script' st' wire' reqs' al' ok' ->
+  (List.length (sbytes st') < List.length (sbytes st))%nat.
+Proof. exact serve_step_progress. Qed.
+Print Assumptions c14_iteration_progress.
+
+Theorem c14_serve_never_out_of_fuel : forall c date script dflt input eof extra,
+  serve_loop c date (S (List.length input) + extra) script dflt (mkS input eof) [] [] [] true
+  = serve c date script dflt input eof.
+Proof. exact serve_fuel. Qed.
+Print Assumptions c14_serve_never_out_of_fuel.
+
+(* non-vacuity *)
+Example c14_example_limited :
+  body_read fixed 3 (BLimited 5) (mkS (s "hello") false) [] = (RData (s "hel"), BLimited 2, mkS (s "lo") false, []).
+Proof. vm_compute. reflexivity. Qed.
+Example c14_example_chunked :
+  dec_read 3 (Some 5%N) (mkS (s "hello") false) = (RData (s "hel"), Some 2%N, mkS (s "lo") false).
+Proof. vm_compute. reflexivity. Qed.
+Example c14_example_discard :
+  src_read (discard_want fixed 100000 (mkS (s "hello") false)) (mkS (s "hello") false)
+  = (RData (s "hello"), mkS [] false) /\ discard_buf fixed 100000 = 8192%N.
+Proof. vm_compute. split; reflexivity. Qed.
+Example c14_example_progress :
+  match serve_step fixed (s "D") [] (mkA [] (FRespond 200 (s "ok") true))
+          (mkS (s "GET / HTTP/1.1" ++ CRLF ++ CRLF ++ s "GET") false) [] [] [] true with
+  | SCont _ st' _ reqs' _ _ => sbytes st' = s "GET" /\ List.length reqs' = 1%nat
+  | SDone _ => False
+  end.
+Proof. vm_compute. split; reflexivity. Qed.
